@@ -25,7 +25,10 @@ BUDGET = {"quick": 70, "thorough": 700}
 @st.composite
 def tagged(draw, thorough=False):
     ns = draw(st.integers(1, 5 if thorough else 4))
-    cross = draw(st.sampled_from(["interleaved", "disjoint", "reversed", "identical", "interleaved"])) if ns > 1 else "single"
+    cross = draw(st.sampled_from(["interleaved", "disjoint", "reversed", "identical", "interleaved", "touching", "touching",
+                                  "copy"])) if ns > 1 else "single"
+    # which block of tag values (1000, 2000, ...) each survey uses: not necessarily increasing with the survey number
+    tag_perm = list(draw(st.permutations(list(range(ns)))))
     t0 = gens.rounded(draw(gens.fl(50000.0, 60000.0)), 9)
     base = gens.rounded(draw(gens.logfloat(1e-2, 1e3)))
     sv = []
@@ -39,17 +42,28 @@ def tagged(draw, thorough=False):
             ts, _ = draw(gens.survey_times(n, t0, base))
             if cross == "disjoint":
                 ts = [gens.rounded(x + 1.5 * base * k, 12) for x in ts]
+            elif cross == "touching":
+                # one survey after the other, the first epoch of each coinciding exactly with the last epoch of its predecessor
+                ts = sorted(gens.rounded(x + 1.5 * base * k, 12) for x in ts)
+                if sv:
+                    ts[0] = max(sv[-1]["t"])
             elif cross == "reversed":
                 ts = [gens.rounded(x + 1.5 * base * (ns - 1 - k), 12) for x in ts]
         if first is None:
             first = ts
         un = draw(st.sampled_from(og.VEL_UNITS))
         # the tag is stored in km/s-equivalent integers and expressed in the survey's own unit
-        rv = [float(og.conv(1000.0 * (k + 1) + j, "km/s", un)) for j in range(n)]
-        err = [float(og.conv(1.0 + 0.001 * (k * 50 + j), "km/s", un)) for j in range(n)]
+        kt = tag_perm[k]
+        rv = [float(og.conv(1000.0 * (kt + 1) + j, "km/s", un)) for j in range(n)]
+        err = [float(og.conv(1.0 + 0.001 * (kt * 50 + j), "km/s", un)) for j in range(n)]
+        if cross == "copy" and k > 0:
+            # the same measurements distributed by two catalogues: an exact copy of (part of) the first survey
+            m_ = draw(st.integers(1, len(sv[0]["t"])))
+            sv.append({"t": list(sv[0]["t"][:m_]), "rv": list(sv[0]["rv"][:m_]), "err": list(sv[0]["err"][:m_]), "unit": sv[0]["unit"]})
+            continue
         sv.append({"t": ts, "rv": rv, "err": err, "unit": un})
     kind = draw(st.sampled_from(["list", "tuple", "dict", "dict"])) if ns > 1 else draw(st.sampled_from(["single", "list"]))
-    case = {"surveys": sv, "cross": cross, "data_kind": kind, "poly_trend": draw(st.integers(1, 3))}
+    case = {"surveys": sv, "cross": cross, "data_kind": kind, "poly_trend": draw(st.integers(1, 3)), "tag_perm": tag_perm}
     if kind == "dict":
         if draw(st.booleans()):
             case["keys"] = list(draw(st.permutations(["a", "bb", "c", "D", "zz"][:ns])))
@@ -84,21 +98,40 @@ def labels_body_factory(ctx):
             raise Violation("merged data set is not the union of the input observations", got=got[:6], want=want[:6])
         if np.any(np.diff(all_data._t_bmjd) < 0):
             raise Violation("merged data not ordered by time")
+        keys = case.get("keys") or list(range(ns))
+        ids_arr = np.asarray(ids)
+        for k in range(ns):
+            cnt = int(np.sum(ids_arr == keys[k])) if ns > 1 or case["data_kind"] != "single" else n
+            if ns > 1 and cnt != len(sv[k]["t"]):
+                raise Violation("survey %r contributed %d observations but %d rows carry its label" % (keys[k], len(sv[k]["t"]), cnt))
+        if case["cross"] == "copy":
+            # identical measurements in two sources cannot be told apart by their values: union and label counts is all
+            ctx.note_case(case, True, ["ns=%d" % ns, "kind:" + case["data_kind"], "cross:copy"])
+            return
         # (b) label of every row == survey read from its tag
-        tag_survey = np.round(rv_kms / 1000.0).astype(int) - 1  # floor of tag/1000 (serials < 500)
-        tag_survey = (np.round(rv_kms).astype(int) // 1000) - 1
+        tag_perm = case.get("tag_perm") or list(range(ns))
+        block = (np.round(rv_kms).astype(int) // 1000) - 1          # which block of tag values
+        tag_survey = np.array([tag_perm.index(int(b)) if 0 <= b < ns else -1 for b in block])
         serial = np.round(rv_kms).astype(int) % 1000
         # error must belong to the same observation
-        exp_err = 1.0 + 0.001 * (tag_survey * 50 + serial)
+        exp_err = 1.0 + 0.001 * (block * 50 + serial)
         if np.max(np.abs(err_kms - exp_err)) > 1e-9:
             raise Violation("velocity and uncertainty of one observation were separated")
-        keys = case.get("keys") or list(range(ns))
         true_labels = [keys[k] for k in tag_survey]
         ids_l = list(np.asarray(ids).tolist()) if ns > 1 or case["data_kind"] != "single" else list(ids)
         f5 = False
         if [str(x) for x in ids_l] != [str(x) for x in true_labels]:
             concat = [keys[k] for k in range(ns) for _ in sv[k]["t"]]
             if [str(x) for x in ids_l] == [str(x) for x in concat] and ns > 1:
+                # recorded defect F5: the labels were left in concatenation order while the rows were sorted by time.  That
+                # explains the mismatch only if the rows are where a time sort of the concatenated sources puts them
+                tc = np.concatenate([np.sort(np.asarray(s_["t"], dtype=float)) for s_ in sv])
+                kc = np.concatenate([np.full(len(s_["t"]), k_) for k_, s_ in enumerate(sv)])
+                expect = kc[np.argsort(tc)]
+                if not np.array_equal(tag_survey, expect):
+                    raise Violation("survey labels are not aligned with the merged observations (and the rows are not in the "
+                                    "order of a time sort of the concatenated sources, so the recorded defect F5 does not "
+                                    "explain it)", ids=ids_l[:20], true=true_labels[:20], expected_survey_order=expect[:20].tolist())
                 f5 = True
                 ctx.known("F5")
             else:
